@@ -1,7 +1,14 @@
 ---------------------------- MODULE Sorting_Trace ----------------------------
 (* B2 for C13: validates what the REAL comparators and sorts did against        *)
 (* Sorting.tla.  Many traces are concatenated; each starts with `reset` (mode +  *)
-(* pool of distinct keys).  Records (indices are 1-based positions in the pool): *)
+(* pool of distinct keys [name, value] + the value map `vmap` under which the     *)
+(* totals were handed to the code, see Sorting.tla "totals": the specification   *)
+(* reads `value`, the code got Embed(64, vmap.w, vmap.off, value)).              *)
+(* Records (indices are 1-based positions in the pool); `src` says where the     *)
+(* comparator came from: "build" = helpers.BuildSorter(sort), "pkg" = the        *)
+(* package-level sorter of that meaning (sorting.NVNameSorter = text,            *)
+(* NVSmartSorter = numeric, NVValueSorter = value); decisions are compared only  *)
+(* within one source (the direction of a tie-break is not specified):            *)
 (*   build  {sort:b, ok}            helpers.BuildSorter(sort) succeeded?          *)
 (*   mat    {sort:b, fresh, m}      m[i][j] = 1 iff the comparator built for      *)
 (*                                  `sort` said less(pool[i], pool[j]); fresh:    *)
@@ -24,8 +31,8 @@ EXTENDS Sorting, Json
 
 Trace == ndJsonDeserialize("trace.ndjson")
 
-VARIABLES l, tid, mode, pool, kinds, sl, mats, canon, bad
-tvars == <<l, tid, mode, pool, kinds, sl, mats, canon, bad>>
+VARIABLES l, tid, mode, pool, vmap, kinds, sl, mats, canon, bad
+tvars == <<l, tid, mode, pool, vmap, kinds, sl, mats, canon, bad>>
 
 Ev == Trace[l]
 N == Len(pool)
@@ -35,7 +42,8 @@ EmptyFn == [x \in {} |-> 0]
 \* ----------------------------------------------------------------- helpers
 SeqSet(s) == {s[k] : k \in 1..Len(s)}
 RevSeq(s) == [k \in 1..Len(s) |-> s[Len(s) + 1 - k]]
-ValueClass(S) == IF \E x \in S, y \in S : x # y /\ pool[x].value = pool[y].value THEN "ties" ELSE "distinct"
+ValueClass(S) == (IF \E x \in S, y \in S : x # y /\ pool[x].value = pool[y].value THEN "ties" ELSE "distinct")
+                 \o (IF vmap.w = 0 THEN "" ELSE "-w" \o ToString(vmap.w))
 ClassOf(S) == IF mode = "value" THEN ValueClass(S) ELSE ClassOfKinds({kinds[x] : x \in S})
 Det(S) == DeterminedKinds(mode, {kinds[x] : x \in S})
 \* names of the laws (second components FALSE)
@@ -52,14 +60,16 @@ Entries(ev, names, S, via) == IF names = <<>> THEN bad ELSE NoteAll(bad, ev, nam
 
 \* ------------------------------------------------------------------- reset
 PoolOK(p) == \A x \in 1..Len(p), y \in 1..Len(p) : x # y => p[x].name # p[y].name
+SrcOK(e) == e.src \in {"build", "pkg"} /\ (e.src = "pkg" => mode \in {"text", "numeric", "value"})
 TReset ==
   /\ Ev.event = "reset"
-  /\ tid' = Ev.t /\ mode' = Ev.mode /\ pool' = Ev.pool
+  /\ tid' = Ev.t /\ mode' = Ev.mode /\ pool' = Ev.pool /\ vmap' = Ev.vmap
   /\ kinds' = [x \in 1..Len(Ev.pool) |-> Kind(Ev.mode, Ev.pool[x].name)]
   \* the specified (ascending) order, evaluated once per pool
   /\ sl' = [x \in 1..Len(Ev.pool) |-> [y \in 1..Len(Ev.pool) |-> SpecLess(Ev.mode, Ev.pool[x], Ev.pool[y])]]
   /\ mats' = EmptyFn /\ canon' = EmptyFn
-  /\ bad' = IF Ev.mode \in Modes /\ PoolOK(Ev.pool) THEN bad
+  /\ bad' = IF /\ Ev.mode \in Modes /\ PoolOK(Ev.pool)
+               /\ VMapOK(Ev.vmap, {Ev.pool[x].value : x \in 1..Len(Ev.pool)}) THEN bad
             ELSE Note(bad, "reset", "harness", "?", "?", "?", Ev.t)
 
 \* ------------------------------------------------------------------- build
@@ -67,13 +77,15 @@ TBuild ==
   /\ Ev.event = "build"
   /\ bad' = IF ~ParseSortDomain(Ev.sort) \/ ParseSort(Ev.sort).ok = Ev.ok THEN bad
             ELSE Note(bad, "build", "table", mode, "-", "-", tid)
-  /\ UNCHANGED <<tid, mode, pool, kinds, sl, mats, canon>>
+  /\ UNCHANGED <<tid, mode, pool, vmap, kinds, sl, mats, canon>>
 
 \* --------------------------------------------------------------------- mat
 MatLaws(e) ==
   LET ps == ParseSort(e.sort)
-      okp == ParseSortDomain(e.sort) /\ ps.ok /\ ps.mode = mode
+      okp == ParseSortDomain(e.sort) /\ ps.ok /\ ps.mode = mode /\ SrcOK(e)
       shape == Len(e.m) = N /\ \A x \in I : Len(e.m[x]) = N
+      mk == <<e.src, ps.rev>>
+      ok2 == <<e.src, ~ps.rev>>
       M(x, y) == e.m[x][y] = 1
       Asc(x, y) == IF ps.rev THEN M(y, x) ELSE M(x, y)       \* the ascending view
       ok == okp /\ shape
@@ -87,31 +99,32 @@ MatLaws(e) ==
         \* the specified order on a homogeneous pool (numbers by magnitude, calendar, ...)
         <<"spec", (ok /\ Det(I)) => \A x \in I, y \in I : (x # y /\ sl[x][y]) => Asc(x, y)>>,
         \* ordered the same way every time (fresh comparator, reused comparator, aliases)
-        <<"same", (ok /\ ps.rev \in DOMAIN mats) =>
-                    \A x \in I, y \in I : x # y => M(x, y) = (mats[ps.rev][x][y] = 1)>>,
+        <<"same", (ok /\ mk \in DOMAIN mats) =>
+                    \A x \in I, y \in I : x # y => M(x, y) = (mats[mk][x][y] = 1)>>,
         \* reversing is the converse
-        <<"converse", (ok /\ (~ps.rev) \in DOMAIN mats) =>
-                    \A x \in I, y \in I : x # y => M(x, y) = (mats[~ps.rev][y][x] = 1)>> >>
+        <<"converse", (ok /\ ok2 \in DOMAIN mats) =>
+                    \A x \in I, y \in I : x # y => M(x, y) = (mats[ok2][y][x] = 1)>> >>
 TMat ==
   /\ Ev.event = "mat"
   /\ LET laws == MatLaws(Ev)
          ps == ParseSort(Ev.sort)
      IN /\ bad' = Entries("mat", Failed(laws), I, IF Ev.fresh THEN "fresh" ELSE "reused")
-        /\ mats' = IF laws[1][2] /\ laws[2][2] /\ ps.rev \notin DOMAIN mats
-                   THEN mats @@ (ps.rev :> Ev.m) ELSE mats
-  /\ UNCHANGED <<tid, mode, pool, kinds, sl, canon>>
+        /\ mats' = IF laws[1][2] /\ laws[2][2] /\ <<Ev.src, ps.rev>> \notin DOMAIN mats
+                   THEN mats @@ (<<Ev.src, ps.rev>> :> Ev.m) ELSE mats
+  /\ UNCHANGED <<tid, mode, pool, vmap, kinds, sl, canon>>
 
 \* ------------------------------------------------------------------ sorted
 SortLaws(e) ==
   LET ps == ParseSort(e.sort)
-      okp == ParseSortDomain(e.sort) /\ ps.ok /\ ps.mode = mode
+      okp == ParseSortDomain(e.sort) /\ ps.ok /\ ps.mode = mode /\ SrcOK(e)
       S == SeqSet(e.sub)
+      mk == <<e.src, ps.rev>>
       O == {e.outs[k].out : k \in 1..Len(e.outs)}
       perm == \A o \in O : Len(o) = Len(e.sub) /\ SeqSet(o) = S
       ok == okp /\ perm /\ S \subseteq I
       Asc(x, y) == IF ps.rev THEN sl[y][x] ELSE sl[x][y]     \* specified order in display direction
-      key == <<ps.rev, S>>
-      okey == <<~ps.rev, S>>
+      key == <<e.src, ps.rev, S>>
+      okey == <<e.src, ~ps.rev, S>>
   IN << <<"parse", okp>>,
         \* the result is a rearrangement of the keys handed in
         <<"perm", okp => (perm /\ S \subseteq I /\ Len(e.outs) >= 1)>>,
@@ -125,27 +138,27 @@ SortLaws(e) ==
         <<"spec", (ok /\ Det(S)) => \A o \in O : \A x \in 1..Len(o), y \in 1..Len(o) :
                                        x < y => ~Asc(o[y], o[x])>>,
         \* the sequence is the one the comparator's own decisions describe
-        <<"matrix", (ok /\ ps.rev \in DOMAIN mats) => \A o \in O : \A x \in 1..Len(o), y \in 1..Len(o) :
-                                       x < y => mats[ps.rev][o[x]][o[y]] = 1>> >>
+        <<"matrix", (ok /\ mk \in DOMAIN mats) => \A o \in O : \A x \in 1..Len(o), y \in 1..Len(o) :
+                                       x < y => mats[mk][o[x]][o[y]] = 1>> >>
 TSorted ==
   /\ Ev.event = "sorted"
   /\ LET laws == SortLaws(Ev)
          ps == ParseSort(Ev.sort)
          S == SeqSet(Ev.sub)
-         key == <<ps.rev, S>>
+         key == <<Ev.src, ps.rev, S>>
      IN /\ bad' = Entries("sorted", Failed(laws), S \cap I, Ev.via)
         /\ canon' = IF laws[1][2] /\ laws[2][2] /\ key \notin DOMAIN canon
                     THEN canon @@ (key :> Ev.outs[1].out) ELSE canon
-  /\ UNCHANGED <<tid, mode, pool, kinds, sl, mats>>
+  /\ UNCHANGED <<tid, mode, pool, vmap, kinds, sl, mats>>
 
 \* --------------------------------------------------------------------- top
 \* a display limited to k rows shows the first k keys of the full order (which must have been
 \* recorded before), every time
 TopLaws(e) ==
   LET ps == ParseSort(e.sort)
-      okp == ParseSortDomain(e.sort) /\ ps.ok /\ ps.mode = mode
+      okp == ParseSortDomain(e.sort) /\ ps.ok /\ ps.mode = mode /\ SrcOK(e)
       O == {e.outs[x].out : x \in 1..Len(e.outs)}
-      key == <<ps.rev, I>>
+      key == <<e.src, ps.rev, I>>
       ok == okp /\ key \in DOMAIN canon /\ e.k \in 0..N
   IN << <<"parse", okp>>,
         <<"deterministic", ok => Cardinality(O) = 1>>,
@@ -153,14 +166,14 @@ TopLaws(e) ==
 TTop ==
   /\ Ev.event = "top"
   /\ bad' = Entries("top", Failed(TopLaws(Ev)), I, Ev.via)
-  /\ UNCHANGED <<tid, mode, pool, kinds, sl, mats, canon>>
+  /\ UNCHANGED <<tid, mode, pool, vmap, kinds, sl, mats, canon>>
 
 TUnknown ==
   /\ Ev.event \notin {"reset", "build", "mat", "sorted", "top"}
   /\ bad' = Note(bad, "?", "harness", mode, "?", "?", tid)
-  /\ UNCHANGED <<tid, mode, pool, kinds, sl, mats, canon>>
+  /\ UNCHANGED <<tid, mode, pool, vmap, kinds, sl, mats, canon>>
 
-TInit == /\ l = 1 /\ tid = 0 /\ mode = "text" /\ pool = <<>> /\ kinds = <<>> /\ sl = <<>>
+TInit == /\ l = 1 /\ tid = 0 /\ mode = "text" /\ pool = <<>> /\ vmap = [w |-> 0, off |-> "zero"] /\ kinds = <<>> /\ sl = <<>>
          /\ mats = EmptyFn /\ canon = EmptyFn /\ bad = EmptyFn
 TNext == /\ l <= Len(Trace) /\ l' = l + 1
          /\ (TReset \/ TBuild \/ TMat \/ TSorted \/ TTop \/ TUnknown)
